@@ -12,6 +12,8 @@ CONSTANTS
   MaxDerive = 3
   BigPeers = 9
   SmallActors = 9
+  MaxSharePeers2 = 0
+  MaxShareActors2 = 0
   MaxOkb = 0
 INVARIANT Holds
 CHECK_DEADLOCK FALSE
